@@ -1,8 +1,54 @@
-(* C30 — property theorems only *)
+(* C30 — property theorems only: each closed by [exact lemma], followed by Print Assumptions. *)
 From Coq Require Import List NArith ZArith Bool.
-From Verif Require Import C30.Model.
+From Verif Require Import C30.Model C30.Proof.
 Import ListNotations.
 Open Scope N_scope.
 
-Example C30_ex_chan : conv (Struct [(mkF 1 0 false 0, Chan 1 (Basic 2))]) = Some (Struct [(mkF 1 0 false 0, Chan 1 (Basic 2))]).
+(* Converter.typ: whenever a type converts, the result is the same term (interface methods lose their receiver, which
+   NewInterfaceType replaces by the new interface): show (convert t) = show t for every finite type term, of any depth.
+   _partial: the declaration-level machinery (mknamed: shell, memo, completion; addmethods) is modelled and exercised
+   by the Examples and the harness but has no theorem. *)
+Theorem C30_convert_preserves_structure_partial : forall t t', conv t = Some t' -> t' = canon t.
+Proof. exact conv_canon. Qed.
+Print Assumptions C30_convert_preserves_structure_partial.
+
+(* Converter.Package on a scope: every convertible object appears with the same name, kind and (for constants) value;
+   nothing else appears; an object whose type cannot be expressed (generic) is skipped without disturbing the others *)
+Theorem C30_scope_preserved : forall s,
+  (forall o, In o s -> forall o', conv_obj o = Some o' ->
+     In o' (conv_scope s) /\ oname o' = oname o /\ okind o' = okind o) /\
+  (forall o', In o' (conv_scope s) -> exists o, In o s /\ conv_obj o = Some o' /\ oname o' = oname o /\ okind o' = okind o /\
+     (forall n t v, o = OConst n t v -> exists t', o' = OConst n t' v)) /\
+  (forall o, In o s -> conv (otype o) = None -> forall o', In o' (conv_scope s) -> conv_obj o <> Some o').
+Proof. exact scope_preserved. Qed.
+Print Assumptions C30_scope_preserved.
+
+Theorem C30_scope_names_in_order : forall s,
+  map oname (conv_scope s) = map oname (filter (fun o => match conv_obj o with Some _ => true | None => false end) s).
+Proof. exact conv_scope_names. Qed.
+Print Assumptions C30_scope_names_in_order.
+
+(* ---------------- non-vacuity ---------------- *)
+(* chan<- int stays chan<- int (dir 1 = SendOnly), inside a struct inside a func *)
+Example C30_ex_chan : conv (Sig None [Struct [(mkF 1 0 false 0, Chan 1 (Basic 2))]] [Chan 2 (Basic 2)] false)
+  = Some (Sig None [Struct [(mkF 1 0 false 0, Chan 1 (Basic 2))]] [Chan 2 (Basic 2)] false).
+Proof. vm_compute. reflexivity. Qed.
+(* a type parameter anywhere makes the conversion fail *)
+Example C30_ex_generic : conv (Sig None [Slice TParam] [Basic 2] false) = None.
+Proof. vm_compute. reflexivity. Qed.
+(* scope: const, generic func (skipped), var *)
+Example C30_ex_scope : conv_scope [OConst 1 (Basic 2) 7; OFunc 2 (Sig None [TParam] [] false); OVar 3 (Pointer (Named 9))]
+  = [OConst 1 (Basic 2) 7; OVar 3 (Pointer (Named 9))].
+Proof. vm_compute. reflexivity. Qed.
+(* named types: a cycle (10: struct{next *10; other 11}, 11: *10 with a method), a generic type 12 with a method
+   (fix C30-1: refused without leaving a shell), and 13 whose method mentions TParam (method skipped, type kept) *)
+Definition ex_senv : senv :=
+  [(10, mkS false (Struct [(mkF 1 0 false 0, Pointer (Named 10)); (mkF 2 0 false 0, Named 11)]) []);
+   (11, mkS false (Pointer (Named 10)) [(5, Sig (Some (Named 11)) [] [Named 10] false)]);
+   (12, mkS true (Struct [(mkF 1 0 false 0, Basic 2)]) [(6, Sig None [] [Pointer TParam] false)]);
+   (13, mkS false (Basic 2) [(7, Sig (Some (Named 13)) [TParam] [] false); (8, Sig (Some (Named 13)) [] [] false)])].
+Example C30_ex_named : convert_all ex_senv [10; 12; 13] =
+  [(10, mkT (Some (Struct [(mkF 1 0 false 0, Pointer (Named 10)); (mkF 2 0 false 0, Named 11)])) []);
+   (11, mkT (Some (Pointer (Named 10))) [(5, Sig (Some (Named 11)) [] [Named 10] false)]);
+   (13, mkT (Some (Basic 2)) [(8, Sig (Some (Named 13)) [] [] false)])].
 Proof. vm_compute. reflexivity. Qed.
